@@ -322,7 +322,13 @@ impl BuiltFunctions {
 pub struct AddedTypes;
 
 fn pick_storage(c: &mut Case, n_types: u32, gc_types: &[u32]) -> Storage {
-    match c.t.below(8) {
+    match c.t.below(11) {
+        // any abstract heap type, either nullability (field and parameter types need no value)
+        8..=10 => {
+            let k = c.t.below(12) as u8;
+            let nullable = c.t.bool();
+            Storage::Val(VT::Abs(k, nullable))
+        }
         0 => Storage::I8,
         1 => Storage::I16,
         2 => Storage::Val(VT::I64),
@@ -444,7 +450,7 @@ impl Driver for AddedTypes {
                 let kind = c.t.below(3);
                 let comp = match kind {
                     0 => {
-                        let vals = [VT::I32, VT::I64, VT::F32, VT::F64, VT::Func, VT::Extern, VT::V128];
+                        let vals = [VT::I32, VT::I64, VT::F32, VT::F64, VT::Func, VT::Extern, VT::V128, VT::Abs(c.t.below(12) as u8, true), VT::Abs(c.t.below(12) as u8, false)];
                         let np = c.t.below(4);
                         let nr = c.t.below(3);
                         GComposite::Func { params: (0..np).map(|_| *c.t.pick(&vals)).collect(), results: (0..nr).map(|_| *c.t.pick(&vals)).collect() }
